@@ -4,10 +4,11 @@ From Klog Require Import Base.Prelude Base.Utf8 Model.Values Model.Record Model.
 Open Scope Z_scope.
 
 (* ---- splitIntoChunks ---- *)
-(* advance p to the next rune start (utf8.RuneStart) or to the end of the text *)
-Fixpoint skip_continuation (s : bytes) : nat :=
+(* advance to the next position that is a rune start (utf8.RuneStart) and does not tear a CRLF apart
+   (fix F11), or to the end of the text; [prev] is the byte before the current position *)
+Fixpoint skip_continuation (prev : N) (s : bytes) : nat :=
   match s with
-  | c :: r => if rune_start c then O else S (skip_continuation r)
+  | c :: r => if negb (rune_start c) || ((c =? 10) && (prev =? 13))%N then S (skip_continuation c r) else O
   | [] => O
   end.
 
@@ -21,7 +22,7 @@ Fixpoint chunks_from (fuel : nat) (size : nat) (rest : bytes) (at_end_emitted : 
     then (* nextPointer > len(txt): this batch takes the rest, the remaining batches stay empty *)
          rest :: chunks_from k size [] true
     else
-      let cut := (size + skip_continuation (skipn size rest))%nat in
+      let cut := (size + skip_continuation (nth (size - 1) rest 0%N) (skipn size rest))%nat in
       firstn cut rest :: chunks_from k size (skipn cut rest) false
   end.
 
